@@ -19,7 +19,7 @@ from fractions import Fraction
 
 import numpy as np
 
-from harness.core import MachineryError, REPO, b2f, f2b, flist, ilist
+from harness.core import MachineryError, REPO, b2f, f2b, flist, ilist, parse_flist
 
 MODEL_MODULES = ['SkyllhModel.Model.Rng', 'SkyllhModel.Model.RngDeep']
 
@@ -1792,11 +1792,26 @@ def _timehist_compare(case, impl, model, count=None):
                 w = st.get('win')
                 count('branch:drawWin:' + ('no-window' if w is None else 'window' if None not in w else 'one-sided-window'))
                 count('branch:tstep:draw-' + ('long-lived-service' if st.get('svc') else 'new-service'))
+    if count:
+        count('diag:timehist-bit-identical=%s' % (times == parts['times']))
     if times != parts['times']:
+        # verdict relation: same number of times per draw, each within a rounding-sized tolerance (a re-ordered
+        # float expression in draw_ontimes moves the last bits; another interval set or deviate moves the times by
+        # far more); bit identity is a diagnostic only
+        edges = [x for iv in case['ivs'] for x in iv] + [x for st in case['steps'] if 'set_ivs' in st for iv in st['set_ivs'] for x in iv]
+        tol = 1e-9 * max(1.0, max(edges) - min(edges)) + 1e-12 * max(abs(x) for x in edges)
         a, b = times.split('/'), parts['times'].split('/')
-        k = [i for i in range(max(len(a), len(b))) if (a[i:i + 1] != b[i:i + 1])][0]
-        return ('draw number %d of the history %r on one Livetime/TimeGenerator (intervals %r): implementation %s, model %s'
-                % (k, case['steps'], case['ivs'], (a[k:k + 1] or ['-'])[0][:120], (b[k:k + 1] or ['-'])[0][:120]))
+        for k in range(max(len(a), len(b))):
+            x, y = (a[k:k + 1] or ['-'])[0], (b[k:k + 1] or ['-'])[0]
+            if x == y:
+                continue
+            bad = x in ('ERR', '-') or y in ('ERR', '-')
+            if not bad:
+                fx, fy = parse_flist(x), parse_flist(y)
+                bad = len(fx) != len(fy) or any(not abs(p - q) <= tol for p, q in zip(fx, fy))
+            if bad:
+                return ('draw number %d of the history %r on one Livetime/TimeGenerator (intervals %r): implementation %s, model %s'
+                        % (k, case['steps'], case['ivs'], x[:120], y[:120]))
     names, first, _, _, _ = _th_plan(case)
     fin = parts['svcs'].split(',')
     for i, nm in enumerate(names):
